@@ -1686,8 +1686,9 @@ func (s *Netceptor) handleMessageData(md *MessageData) error {
 		s.listenerLock.RUnlock()
 		select {
 		case <-pc.context.Done():
-			close(pc.recvChan)
-
+			// The socket was closed while we were waiting to deliver.  Readers learn
+			// about the closure from pc.context; recvChan is shared by every
+			// concurrent deliverer, so none of them may close it.
 			return nil
 		case pc.recvChan <- md:
 		}
